@@ -11,16 +11,55 @@ A file is `absent | empty | torn (= partially written) | good cls ver` (`cls` = 
 version of the node state it holds).  A save is the exact list of file-system steps the code
 performs; a crash is a prefix of that list (no exception handler, no `finally`).
 
+A class (`Cls`) is what `Node.load` can tell apart: the identity of the class object, its
+`(__module__, __qualname__)` and the identities of its ancestors; `classify` names how a loading
+class is related to the saved one (`ClassRel`).  `hasSaved` (= `_has_saved_content`) and the
+auto-load decision of `Node._after_node_setup` are functions of the file-system state.
+
 Core Lean only.
 -/
 namespace PwVerif.Storage
+
+/-- a node class, as far as `Node.load` could tell two classes apart -/
+structure Cls where
+  id    : Nat          -- identity of the class object (`is`)
+  name  : Nat          -- `(__module__, __qualname__)`
+  bases : List Nat     -- identities of its proper ancestors (`__mro__[1:]`, node classes only)
+  deriving DecidableEq, Repr
+
+/-- how the class of the loading node is related to the class of the saved node -/
+inductive ClassRel
+  | same          -- the very same class object
+  | sameName      -- another class object with the same module and qualified name (two classes made by one
+                  -- factory function, a class defined again later / module executed again), no inheritance
+  | diffName      -- unrelated class with another name
+  | subclass      -- the loading class derives from the saved class
+  | superclass    -- the saved class derives from the loading class
+  deriving DecidableEq, Repr
+
+def classify (saved loader : Cls) : ClassRel :=
+  if loader.id = saved.id then .same
+  else if loader.bases.contains saved.id then .subclass
+  else if saved.bases.contains loader.id then .superclass
+  else if loader.name = saved.name then .sameName
+  else .diffName
+
+/-- the class of the graph of the driver / the examples, and one loading class per relation -/
+def Cls.graph : Cls := ⟨0, 0, [5]⟩
+
+def Cls.ofRel : ClassRel → Cls
+  | .same => Cls.graph
+  | .sameName => ⟨1, 0, [5]⟩
+  | .diffName => ⟨2, 1, []⟩
+  | .subclass => ⟨3, 2, [0, 5]⟩
+  | .superclass => ⟨5, 3, []⟩
 
 /-- content of one file -/
 inductive FileSt
   | absent
   | empty                      -- exists, 0 bytes  (just after `open(p, "wb")`)
   | torn                       -- a strict, non-empty prefix of a pickle stream
-  | good (cls ver : Nat)       -- a complete pickle of a node of class `cls` in state `ver`
+  | good (cls : Cls) (ver : Nat)   -- a complete pickle of a node of class `cls` in state `ver`
   deriving DecidableEq, Repr
 
 inductive Slot | pckl | cpckl | pcklTmp | cpcklTmp
@@ -31,9 +70,19 @@ inductive Slot | pckl | cpckl | pcklTmp | cpcklTmp
 inductive SaveMode | inPlace | atomicReplace
   deriving DecidableEq, Repr
 
+/-- `sweep`: `StorageInterface.delete` calls `_delete` whether or not `_has_saved_content` (proposed repair
+`fixes/C19-delete-sweeps-leftovers`); the tree as it is calls it only when a final-name file exists. -/
 structure Cfg where
   saveMode : SaveMode
+  sweep    : Bool
   deriving DecidableEq, Repr
+
+/-- the code before `afb726d` -/
+def Cfg.pinned : Cfg := ⟨.inPlace, false⟩
+/-- the tree as it is now -/
+def Cfg.current : Cfg := ⟨.atomicReplace, false⟩
+/-- ... with the delete repair -/
+def Cfg.swept : Cfg := ⟨.atomicReplace, true⟩
 
 structure FS where
   dir      : Bool
@@ -66,7 +115,7 @@ inductive Step
   | mkdir                              -- `filename.parent.mkdir(parents=True, exist_ok=True)`
   | open (s : Slot)                    -- `open(p, "wb")`: create or TRUNCATE
   | write (s : Slot)                   -- some, not all, bytes have reached the file
-  | close (s : Slot) (cls ver : Nat)   -- all bytes written, file closed
+  | close (s : Slot) (cls : Cls) (ver : Nat)   -- all bytes written, file closed
   | unlink (s : Slot)                  -- `p.unlink(missing_ok=True)`
   | replace (src dst : Slot)           -- `os.replace(src, dst)` (atomic)
   | rmdirIfEmpty                       -- `if not any(parent.iterdir()): parent.rmdir()`
@@ -90,7 +139,7 @@ def runSteps (fs : FS) : List Step → FS
 name (repaired variant only), `succeeds` whether this pickler can serialise the content.
 A failing dump raises before a single byte is written (the picklers buffer); the handler
 unlinks what `open` created. -/
-def attempt (m : SaveMode) (target other tmp : Slot) (succeeds : Bool) (cls ver : Nat) : List Step :=
+def attempt (m : SaveMode) (target other tmp : Slot) (succeeds : Bool) (cls : Cls) (ver : Nat) : List Step :=
   match m, succeeds with
   | .inPlace, true => [.open target, .write target, .close target cls ver]
   | .inPlace, false => [.open target, .unlink target]
@@ -99,7 +148,7 @@ def attempt (m : SaveMode) (target other tmp : Slot) (succeeds : Bool) (cls ver 
   | .atomicReplace, false => [.open tmp, .unlink tmp]
 
 /-- the steps of `StorageInterface.save` up to (not including) its `finally` clause -/
-def saveSteps (m : SaveMode) (c : Content) (cls ver : Nat) : List Step :=
+def saveSteps (m : SaveMode) (c : Content) (cls : Cls) (ver : Nat) : List Step :=
   .mkdir ::
     match c with
     | .ok => attempt m .pckl .cpckl .pcklTmp true cls ver
@@ -109,15 +158,15 @@ def saveSteps (m : SaveMode) (c : Content) (cls ver : Nat) : List Step :=
         attempt m .pckl .cpckl .pcklTmp false cls ver ++ attempt m .cpckl .pckl .cpcklTmp false cls ver
 
 /-- a save that runs to its end (normally or by raising): all steps, then the `finally` -/
-def saveFS (cfg : Cfg) (fs : FS) (c : Content) (cls ver : Nat) : FS :=
+def saveFS (cfg : Cfg) (fs : FS) (c : Content) (cls : Cls) (ver : Nat) : FS :=
   runSteps fs (saveSteps cfg.saveMode c cls ver ++ [.rmdirIfEmpty])
 
 /-- the process dies after `k` file-system calls of the save: nothing else happens -/
-def crashFS (cfg : Cfg) (fs : FS) (c : Content) (cls ver k : Nat) : FS :=
+def crashFS (cfg : Cfg) (fs : FS) (c : Content) (cls : Cls) (ver k : Nat) : FS :=
   runSteps fs ((saveSteps cfg.saveMode c cls ver).take k)
 
 inductive LoadRes
-  | ok (cls ver : Nat)
+  | ok (cls : Cls) (ver : Nat)
   | notFound                 -- `FileNotFoundError`
   | corrupt                  -- the selected file is empty / truncated (`EOFError`, `UnpicklingError`)
   deriving DecidableEq, Repr
@@ -135,23 +184,36 @@ def storageLoad (fs : FS) : LoadRes :=
     | .torn => .corrupt
     | .absent => .notFound
 
-/-- `PickleStorage._has_saved_content` -/
+/-- `PickleStorage._has_saved_content`: a file exists under one of the two FINAL names (whatever it holds);
+temporaries do not count -/
 def hasSaved (fs : FS) : Bool := fs.pckl != .absent || fs.cpckl != .absent
 
+/-- the decision of `Node._after_node_setup`: `if backend.has_saved_content(self): self.load(...)` -/
+def autoAttempt (fs : FS) : Bool := hasSaved fs
+
+/-- `_load` would find a complete pickle -/
+def loadable (fs : FS) : Bool :=
+  match storageLoad fs with
+  | .ok _ _ => true
+  | _ => false
+
+/-- NOT the code: a `_has_saved_content` that also counts what an interrupted save left behind -/
+def hasSavedOrLeftover (fs : FS) : Bool := hasSaved fs || fs.pcklTmp != .absent || fs.cpcklTmp != .absent
+
 /-- `StorageInterface.delete` (+ `PickleStorage._delete`; the repaired variant also removes
-left-over temporaries) -/
+left-over temporaries): `_delete` is only reached when `_has_saved_content` (unless `cfg.sweep`) -/
 def deleteSteps (m : SaveMode) : List Step :=
   match m with
   | .inPlace => [.unlink .pckl, .unlink .cpckl]
   | .atomicReplace => [.unlink .pckl, .unlink .pcklTmp, .unlink .cpckl, .unlink .cpcklTmp]
 
 def deleteFS (cfg : Cfg) (fs : FS) : FS :=
-  let fs1 := if hasSaved fs then runSteps fs (deleteSteps cfg.saveMode) else fs
+  let fs1 := if cfg.sweep || hasSaved fs then runSteps fs (deleteSteps cfg.saveMode) else fs
   if fs1.dir && fs1.noFiles then { fs1 with dir := false } else fs1
 
 /-- the live node: its class and the version of the state it holds -/
 structure NodeSt where
-  cls : Nat
+  cls : Cls
   ver : Nat
   deriving DecidableEq, Repr
 
@@ -162,19 +224,32 @@ inductive NodeLoadRes
   | classMismatch            -- `TypeError`, raised before `__setstate__`
   deriving DecidableEq, Repr
 
-/-- `Node.load`: storage load, class check, only then adopt the state -/
-def nodeLoad (n : NodeSt) (fs : FS) : NodeSt × NodeLoadRes :=
+/-- ways to compare the class of the loaded instance with the class of the loading node; the code is
+`inst.__class__ != self.__class__` = identity of the class objects -/
+inductive ClassCheck | identity | byName | isInstance
+  deriving DecidableEq, Repr
+
+def ClassCheck.accepts : ClassCheck → (saved loader : Cls) → Bool
+  | .identity, s, l => s.id == l.id
+  | .byName, s, l => s.name == l.name
+  | .isInstance, s, l => s.id == l.id || s.bases.contains l.id
+
+/-- `Node.load` with a given class check: storage load, class check, only then adopt the state -/
+def nodeLoadBy (chk : ClassCheck) (n : NodeSt) (fs : FS) : NodeSt × NodeLoadRes :=
   match storageLoad fs with
-  | .ok c v => if c = n.cls then (⟨n.cls, v⟩, .loaded v) else (n, .classMismatch)
+  | .ok c v => if chk.accepts c n.cls then (⟨n.cls, v⟩, .loaded v) else (n, .classMismatch)
   | .notFound => (n, .notFound)
   | .corrupt => (n, .corrupt)
+
+/-- `Node.load` as it is -/
+def nodeLoad (n : NodeSt) (fs : FS) : NodeSt × NodeLoadRes := nodeLoadBy .identity n fs
 
 structure World where
   fs   : FS
   node : NodeSt
   deriving DecidableEq, Repr
 
-def World.init (cls : Nat) : World := ⟨FS.init, ⟨cls, 0⟩⟩
+def World.init (cls : Cls) : World := ⟨FS.init, ⟨cls, 0⟩⟩
 
 inductive Op
   | save (c : Content) (ver : Nat)          -- set the node to version `ver`, `node.save()`
@@ -182,7 +257,7 @@ inductive Op
   | load                                    -- `node.load()`
   | delete                                  -- `node.delete_storage()`
   | reopen                                  -- a new node object with auto-load (`Workflow(label)`)
-  | loadForeign (cls ver : Nat)             -- a node of class `cls` in state `ver` loads this file
+  | loadForeign (cls : Cls) (ver : Nat)     -- another node, of class `cls`, in state `ver`, loads this file
   deriving DecidableEq, Repr
 
 inductive Res
@@ -203,7 +278,7 @@ def step (cfg : Cfg) (w : World) : Op → World × Res
   | .delete => ({ w with fs := deleteFS cfg w.fs }, .deleted)
   | .reopen =>
     let n0 : NodeSt := ⟨w.node.cls, 0⟩
-    if hasSaved w.fs then
+    if autoAttempt w.fs then
       let (n, r) := nodeLoad n0 w.fs
       ({ w with node := n }, .load r)
     else ({ w with node := n0 }, .fresh)
